@@ -47,7 +47,7 @@ CHECKS = {
          "Every byte string over a 36-symbol adversarial alphabet (and number/string/identifier sub-alphabets) up to a stated length is scanned by the real lexer and compared token by token with an independently written longest-match tokenizer; partition, re-scan and accessor laws are checked on each. Complete below the bound, silent beyond it.",
          "reference tokenizer harness/reftok encodes the token definitions of the property statement; alphabet has one representative per character class"),
  "C14": ("model_checking", "stateless model checking of the real code under a controlled cooperative scheduler (auto-instrumented scheduling points, iterative preemption bounding, co-enabled-conflict race oracle) + exhaustive sequential call histories", "DESIGN.md §3.7, §4 C14",
-         "Nine scenarios of 2-3 threads x 1-3 calls (cold start included) are explored over all interleavings of instrumented shared-memory and synchronisation points: preemption bounds 0, 1, 2 (thorough: up to 4) and then without a bound, pruned by state key; every call must return its sequential fresh-state result, results already returned must not change afterwards, no two enabled threads may have conflicting pending accesses, no deadlock, parameter maps unchanged; all call histories to depth 3 (4) over 27 call kinds; fresh-process conformance of the in-process state reset; supplementary free-running pass under the Go race detector.",
+         "Eleven scenarios of 2-3 threads x 1-3 calls (cold start included) are explored over all interleavings of instrumented shared-memory and synchronisation points: preemption bounds 0, 1, 2 (thorough: up to 4) and then without a bound, pruned by state key; every call must return its sequential fresh-state result, results already returned must not change afterwards, no two enabled threads may have conflicting pending accesses, no deadlock, parameter maps unchanged; all call histories to depth 3 (4) over 27 call kinds; fresh-process conformance of the in-process state reset; supplementary free-running pass under the Go race detector.",
          "sequentially consistent interleavings at instrumented points; instrumentation generated at check time from the tree (package-level variables with field paths, map accesses, sync and sync/atomic via shims)"),
  "C15": ("exploration", "bounded-exhaustive input enumeration with cross-laws between SplitStatements, Scan, Parse and a reference tokenizer", "DESIGN.md §4 C15",
          "Every byte string over a 17-symbol alphabet up to a stated length plus semicolons inserted at every byte offset of a program corpus; join/round-trip, piece count, piece-in-isolation = statement-in-context and Parse correspondence are checked on every one.",
